@@ -36,7 +36,7 @@ import (
 const shardFile = "shard_queue.go"
 const shardRecvType = "ShardQueue"
 
-var shardModelled = []string{"Add", "Close", "triggering", "foreach", "deal", "flush", "lock", "unlock"}
+var shardModelled = []string{"Add", "Close", "drained", "triggering", "foreach", "deal", "flush", "lock", "unlock"}
 
 // functions in which the queue is not yet shared: plain accesses there are not schedule points
 var shardPrePublication = map[string]bool{"NewShardQueue": true, "init": true}
@@ -61,6 +61,8 @@ type shardResult struct {
 	Funcs       []string
 	Steps       map[string][][2]string
 	Unsupported []string
+	AddGuard    string // condition of the leading `if … { return }` of Add when it touches nothing shared, else ""
+	AddShard    string // right-hand side of the definition of `shard` in Add, else ""
 
 	fset    *token.FileSet
 	file    *ast.File
@@ -752,6 +754,9 @@ func analyseShard(pkgs []*packages.Package) *shardResult {
 					continue
 				}
 				res.Funcs = append(res.Funcs, name)
+				if name == "Add" {
+					a.addLocals(fd)
+				}
 				a.block(&fd.Body.List)
 				if a.entries == nil {
 					a.entries = [][2]string{}
@@ -761,6 +766,41 @@ func analyseShard(pkgs []*packages.Package) *shardResult {
 		}
 	}
 	return res
+}
+
+// addLocals records the two local computations of Add that the model mirrors without a schedule point:
+// a leading `if <cond> { return }` whose condition has no selector and no call but len (so it reads only
+// the arguments), and the expression that defines the local `shard`.
+func (a *shardAn) addLocals(fd *ast.FuncDecl) {
+	if len(fd.Body.List) > 0 {
+		if is, ok := fd.Body.List[0].(*ast.IfStmt); ok && is.Init == nil && is.Else == nil && len(is.Body.List) == 1 {
+			if r, ok := is.Body.List[0].(*ast.ReturnStmt); ok && len(r.Results) == 0 {
+				local := true
+				ast.Inspect(is.Cond, func(n ast.Node) bool {
+					switch x := n.(type) {
+					case *ast.SelectorExpr:
+						local = false
+					case *ast.CallExpr:
+						if id, ok := unparen(x.Fun).(*ast.Ident); !ok || id.Name != "len" {
+							local = false
+						}
+					}
+					return true
+				})
+				if local {
+					a.res.AddGuard = a.text(is.Cond)
+				}
+			}
+		}
+	}
+	ast.Inspect(fd.Body, func(n ast.Node) bool {
+		if as, ok := n.(*ast.AssignStmt); ok && as.Tok == token.DEFINE && len(as.Lhs) == 1 && len(as.Rhs) == 1 && a.res.AddShard == "" {
+			if id, ok := as.Lhs[0].(*ast.Ident); ok && id.Name == "shard" {
+				a.res.AddShard = a.text(as.Rhs[0])
+			}
+		}
+		return true
+	})
 }
 
 func (a *shardAn) collectFields() {
@@ -880,6 +920,8 @@ func (r *shardResult) lean() string {
 		}
 		fmt.Fprintf(&b, "def steps_%s : List (String × String) := [%s]\n\n", fn, strings.Join(parts, ", "))
 	}
+	fmt.Fprintf(&b, "/-- condition of the leading `if … { return }` of Add (reads only the arguments), \"\" when there is none -/\ndef add_guard : String := %s\n\n", leanStr(r.AddGuard))
+	fmt.Fprintf(&b, "/-- the expression that defines the local `shard` in Add -/\ndef add_shard : String := %s\n\n", leanStr(r.AddShard))
 	fmt.Fprintf(&b, "/-- shapes the instrumenter cannot hook (empty for a supported source) -/\ndef unsupported : List String := %s\n\n", q(r.Unsupported))
 	b.WriteString("end Netpoll.Gen.Shard\n")
 	return b.String()
